@@ -60,7 +60,10 @@ def gen_case(rng, tier, index):
         # the directory reached through a symbolic link; files created before the context is entered; a second,
         # independent pool alive at the same time
         return {"kind": "tmp-single", "ops": steps, "via_symlink": rng.random() < 0.25,
-                "pre_create": rng.choice([0, 0, 0, 1, 2]), "companion": rng.random() < 0.3, "relative_dir": rng.random() < 0.2}
+                "pre_create": rng.choice([0, 0, 0, 1, 2]), "companion": rng.random() < 0.3, "relative_dir": rng.random() < 0.2,
+                # (derived from the index, no further draws: earlier histories stay what they were) the second pool lives in the SAME
+                # directory; a child process forked inside the context is terminated with SIGTERM
+                "companion_same_dir": (index // 10) % 2 == 0, "child_terminated": (index // 10) % 3 == 1}
     if k < 7:
         children = []
         for _ in range(rng.randint(1, 3)):
@@ -160,13 +163,31 @@ def _tmp_single_once(case, steps, route, res):
         raise Violation(mech, f"TmpPool history {[s[0] for s in steps]} left by {route}: {msg}",
                         {"dir": sorted(os.listdir(d)), "ever_returned": len(ever)})
 
+    def others():
+        """Files of the second pool when it shares the directory."""
+        return set(comp["files"]) if comp and comp["dir"] == d else set()
+
+    def terminate_a_child(pool, when):
+        # a helper process forked inside the context (it inherits everything) is stopped with SIGTERM, as Process.terminate() does:
+        # the pool of the parent is what it was
+        import multiprocessing
+        import time
+        hp = multiprocessing.get_context("fork").Process(target=time.sleep, args=(20,))
+        hp.start()
+        time.sleep(0.03)
+        hp.terminate()
+        hp.join(10)
+        res.count("children_forked_inside_the_context_and_terminated")
+        observe(pool, f"a child process forked {when} was terminated (SIGTERM)")
+
     def observe(pool, desc):
         res.evaluations += 1
         listed = state["listed"]
-        on_disk = sorted(os.path.join(pool_dir, f) for f in os.listdir(d))
+        on_disk = sorted(os.path.join(pool_dir, f) for f in os.listdir(d) if os.path.join(d, f) not in others())
         if comp:
             cp, cfiles, cd = comp["pool"], comp["files"], comp["dir"]
-            if [cp[i] for i in range(len(cp))] != cfiles or sorted(os.path.join(cd, f) for f in os.listdir(cd)) != sorted(cfiles):
+            if [cp[i] for i in range(len(cp))] != cfiles or \
+                    sorted(os.path.join(cd, f) for f in os.listdir(cd) if cd != d or os.path.join(cd, f) in cfiles) != sorted(cfiles):
                 fail("other-pool-disturbed", f"after {desc}: a second, independent pool lists "
                      f"{[cp[i] for i in range(len(cp))]} and its directory holds {sorted(os.listdir(cd))}, it created {cfiles}")
         if len(pool) != len(listed) or [pool[i] for i in range(len(pool))] != listed:
@@ -251,8 +272,9 @@ def _tmp_single_once(case, steps, route, res):
                 state["listed"] = []
                 state["ext_deleted"] = set()
                 left = [p for p in ever if os.path.exists(p)]
-                if left or os.listdir(d):
-                    fail("flush-leaves-files", f"after flush() {left or os.listdir(d)} still exist")
+                rest = [f for f in os.listdir(d) if os.path.join(d, f) not in others()]
+                if left or rest:
+                    fail("flush-leaves-files", f"after flush() {left or rest} still exist")
             elif op == "read":
                 if a % 3 == 0:
                     # a copy of the pool object (copy.copy / pickle round trip, as when the pool is passed to a worker) is made
@@ -275,7 +297,7 @@ def _tmp_single_once(case, steps, route, res):
 
     def run():
         if case.get("companion"):
-            cd = fresh_dir("tmp-companion")
+            cd = d if case.get("companion_same_dir") and not case.get("via_symlink") and not case.get("relative_dir") else fresh_dir("tmp-companion")
             cpool = TmpPool(cd)
             cpool.__enter__()
             comp.update(pool=cpool, dir=cd, files=[cpool.create(), cpool.create()])
@@ -289,7 +311,7 @@ def _tmp_single_once(case, steps, route, res):
                 intact = [cp[i] for i in range(len(cp))] == cfiles and all(os.path.exists(x) for x in cfiles)
                 cfiles.append(cp.create())
                 cp.__exit__(None, None, None)
-                if not intact or os.listdir(cd):
+                if not intact or [f for f in os.listdir(cd) if cd != d or os.path.join(cd, f) in cfiles]:
                     fail("other-pool-disturbed", f"a second, independent pool: intact after the first one ended: {intact}; "
                          f"left in its directory after its own exit: {os.listdir(cd)}")
 
@@ -316,15 +338,19 @@ def _tmp_single_once(case, steps, route, res):
             res.count("tmp_files_created_before_enter")
         with pool_obj as pool:
             observe(pool, "enter")
+            if case.get("child_terminated") and state["listed"]:
+                terminate_a_child(pool, "right after entering the context")
             if route == "break":
                 for _ in (0,):
                     body(pool)
                     break
             else:
                 body(pool)
+                if case.get("child_terminated") and route == "normal" and not case.get("relative_dir"):
+                    terminate_a_child(pool, "at the end of the body")
         if route == "normal":
             # the same pool object is entered a second time: it starts empty and cleans up again
-            if os.listdir(d):
+            if [f for f in os.listdir(d) if os.path.join(d, f) not in others()]:
                 fail("exit-leaves-files", f"after leaving the context the directory holds {os.listdir(d)[:3]}")
             state["listed"] = []
             if case.get("relative_dir"):
